@@ -4,6 +4,7 @@
    callbacks complete before the next call (see harness assumptions); concurrent Take callers are C18's. *)
 From God Require Import Base.Prelude C17.Model C17.Proofs.
 From God Require C10.Model C10.Proofs.
+From God Require C17.Exec C17.Link.
 Import C10.Model.
 
 (* A cache created with a limit never holds more than that many entries: after every history of
@@ -70,6 +71,15 @@ Theorem c17_expiry_window_partial :
      1 <= steps_of second j).
 Proof. split; [exact @cset_hands_jitter_to_wheel | exact window_arith]. Qed.
 Print Assumptions c17_expiry_window_partial.
+
+(* The jitter, in exact arithmetic on the random draw d (Float64() = d / 2^63) and for EVERY base duration
+   >= 0 (seconds to years, no bound): (1 + 1/20 - 2 * 1/20 * d / 2^63) * base lies within [95%, 105%] of the
+   base.  That the float64 expression of lib/mathx/unstable.go agrees with this value to within 1 microsecond
+   over the whole duration range is what the `jitter` correspondence stream checks. *)
+Theorem c17_jitter_window : forall base d : Z, (0 <= base)%Z -> (0 <= d < C17.Exec.two63)%Z ->
+  (base * 95 / 100 <= C17.Exec.jit_exact base d <= base * 105 / 100)%Z.
+Proof. exact C17.Link.jit_exact_window. Qed.
+Print Assumptions c17_jitter_window.
 
 (* ---- non-vacuity: limit 2; k0,k1 set, k0 read, k2 set evicts k1 (the least recently used) ---- *)
 Example c17_lru_example :
